@@ -1102,6 +1102,11 @@ def _m_zip(I, b, a, kw, node):
     return SymSeq(z3.simplify(n), lambda i, ss=ss: tuple(s_.elem(i) for s_ in ss), "zip")
 
 
+def _pick_t(row, c):
+    """element c of a row given as a python list of values"""
+    return _pick(row, c)
+
+
 def _pick(items, i):
     """element i (a z3 Int term or python int) of a python list of values"""
     if isinstance(i, int):
